@@ -8,6 +8,8 @@ Model: Model/MessageSetReader.lean (message_reader.go + batch.go as a token mach
 import KafkaVerif.Model.Batch
 import KafkaVerif.Spec.Layout
 import KafkaVerif.Lemmas.FetchDecoder
+import KafkaVerif.Model.ReaderLoop
+import KafkaVerif.Model.ReaderFront
 
 namespace KV.C02
 
@@ -100,5 +102,99 @@ theorem single_fetch_partial (items : List Item) (nb : Int) (hnb : 0 ≤ nb) (hw
 /-- the hypotheses are met by a log with compaction holes, an empty batch and a compressed batch -/
 example : V2WF 0 [.b2 100 104 false 36 [(0, 1, 12), (2, 2, 12), (3, 3, 12)], .b2 105 109 false 0 [],
     .b2 112 115 true 40 [(1, 4, 20), (3, 5, 20)]] := by simp [V2WF, RecsWF, sumSizes]
+
+/-! ## 2. Repeated fetches
+
+Full statement (`iterated_fetch`): for every sequence of broker answers obeying the fetch contract the concatenated
+deliveries are the log from the start offset, gap-free and duplicate-free (invariant: delivered = log ∩ [start, connOffset)).
+Not proved in general here (it needs, on top of `single_fetch_partial`, the lower bound "everything delivered is below
+the new conn offset" carried through the same invariant); checked by the `iter` correspondence + monitor on generated
+logs and budgets, and on the defect layouts below. -/
+
+theorem iterated_fetch_partial :
+    (fetchSeq .fixed d15Layout 112 100 [100, 100]).1 = (allRecords d15Layout).filter (fun r => 100 ≤ r.1) ∧
+    (fetchSeq .fixed d14Layout 108 100 [1, 1, 1, 1]).1 = (allRecords d14Layout).filter (fun r => 100 ≤ r.1) := by decide
+
+/-- on the legacy code the same budgets never get past the compacted tail -/
+theorem iterated_fetch_legacy_counterexample :
+    (fetchSeq .legacy d15Layout 112 100 [100, 100, 100, 100]) = ([(100, 7), (101, 8)], 102) := by decide
+
+/-! ## 3. The Reader's loop (reader.go run / initialize / read) -/
+
+/-- `restart_offset`: every fault (connection cut after any prefix of a response, NotLeaderForPartition,
+UnknownTopicOrPartition, time-out) closes the connection and leaves `offset` at last delivered + 1 (unchanged when
+nothing was delivered) … -/
+theorem restart_offset_faults (v : Variant) (s : RL) (hwm first last : Int) :
+    onAnswer v s hwm first last (.err 6) = .go { s with connOpen := false } ∧
+    onAnswer v s hwm first last (.err 3) = .go { s with connOpen := false } ∧
+    onAnswer v s hwm first last .hang = .go { s with connOpen := false } ∧
+    (∀ toks, ∃ d, onAnswer v s hwm first last (.cutAfter toks) = .go { deliver s d with connOpen := false }) := by
+  refine ⟨rfl, rfl, rfl, fun toks => ⟨_, rfl⟩⟩
+
+theorem deliver_offset (s : RL) (d : List Rec) (r : Rec) (h : d.getLast? = some r) : (deliver s d).offset = r.1 + 1 := by
+  simp [deliver, h]
+
+theorem deliver_nothing (s : RL) : (deliver s []).offset = s.offset := by simp [deliver]
+
+/-- … and the next `initialize` seeks the new connection exactly there -/
+theorem restart_offset (s : RL) (first last : Int) (h0 : 0 ≤ s.offset) (h1 : first ≤ s.offset) (h2 : s.offset ≤ last) :
+    initializeRL s first last = some { s with connOpen := true, connOff := s.offset } := by
+  have a : ¬ s.offset = -1 := by omega
+  have b : ¬ s.offset = -2 := by omega
+  have c : ¬ s.offset < first := by omega
+  have d : ¬ s.offset > last := by omega
+  simp [initializeRL, a, b, c, d]
+
+example : initializeRL { offset := 107 } 100 115 = some { offset := 107, connOpen := true, connOff := 107 } := by rfl
+
+/-- `out_of_range_seeks` (D3 repaired): OffsetOutOfRange below the log start moves the position *and the connection*
+to the first offset -/
+theorem out_of_range_seeks (s : RL) (hwm first last : Int) (h : s.offset < first) :
+    onAnswer .fixed s hwm first last (.err 1) = .go { s with offset := first, connOff := first } := by
+  simp [onAnswer, h]
+
+/-- D3 on the legacy code: the connection keeps its stale offset, so the same fetch is repeated forever -/
+theorem out_of_range_counterexample :
+    onAnswer .legacy { offset := 105, connOpen := true, connOff := 105 } 115 110 115 (.err 1)
+      = .go { offset := 110, connOpen := true, connOff := 105 } := by rfl
+
+/-! ## 4. The Reader's front (FetchMessage / SetOffset / version tags) -/
+
+theorem dropWhile_filter_head (q : List (Nat × Rec)) (v : Nat) :
+    ((q.dropWhile (fun e => e.1 != v)).head?) = ((q.filter (fun e => e.1 == v)).head?) := by
+  induction q with
+  | nil => rfl
+  | cons e rest ih =>
+    by_cases h : e.1 = v
+    · simp [List.dropWhile, List.filter, h]
+    · have h1 : (e.1 != v) = true := by simpa using h
+      have h2 : (e.1 == v) = false := by simpa using h
+      simp [List.dropWhile, List.filter, h1, h2, ih]
+
+/-- `setoffset_next`: `SetOffset(o)` bumps the version; whatever stale entries are still queued, the next message
+`FetchMessage` accepts carries the new tag, and — given that the fetcher started at `o` feeds the stored records at
+or above `o` in order (`Fed`, by §1–§3) — it is the stored record with the smallest offset at or above `o`. -/
+theorem setoffset_next (f : Front) (expected : List Rec) (hfed : Fed f expected) (r : Rec) (f' : Front)
+    (h : f.fetchMessage = some (r, f')) : expected.head? = some r := by
+  unfold Front.fetchMessage at h
+  have hd := dropWhile_filter_head f.queue f.version
+  cases hq : f.queue.dropWhile (fun e => e.1 != f.version) with
+  | nil => simp [hq] at h
+  | cons e rest =>
+    simp only [hq, Option.some.injEq, Prod.mk.injEq] at h
+    rw [hq] at hd
+    simp only [List.head?_cons] at hd
+    obtain ⟨t, ht⟩ := hfed
+    cases hf : f.queue.filter (fun e => e.1 == f.version) with
+    | nil => simp [hf] at hd
+    | cons e' rest' =>
+      rw [hf] at hd ht
+      simp only [List.head?_cons, Option.some.injEq] at hd
+      simp only [List.map_cons, List.cons_append] at ht
+      rw [← ht, List.head?_cons, ← hd, h.1]
+
+/-- stale entries are skipped: after SetOffset the two queued messages of the old fetcher are dropped -/
+example : (({ version := 0, queue := [(0, (5, 1)), (0, (6, 2))] } : Front).setOffset.enqueue 1 (3, 9)).fetchMessage
+    = some ((3, 9), { version := 1, queue := [] }) := by rfl
 
 end KV.C02
